@@ -611,9 +611,21 @@ func ResolveAnchors(p *Prog) *Anchors {
 		callsHT := func(fn *ssa.Function) bool {
 			return callsWhere(fn, func(c *ssa.CallCommon) bool { return c.StaticCallee() == ht })
 		}
+		writesHeader := func(fn *ssa.Function) bool {
+			upd := false
+			instrsOf(fn, func(in ssa.Instruction) {
+				if mu, ok := in.(*ssa.MapUpdate); ok && isHTTPHeader(mu.Map.Type()) {
+					upd = true
+				}
+				if c := callOf(in); c != nil && (callIsMethod(c, "net/http", "Header", "Set") || callIsMethod(c, "net/http", "Header", "Add")) {
+					upd = true
+				}
+			})
+			return upd
+		}
 		pick("stripHop", inReach, func(fn *ssa.Function) bool {
-			if !callsHT(fn) {
-				return false
+			if !callsHT(fn) || writesHeader(fn) {
+				return false // (a function that also writes header fields is the 304 merge)
 			}
 			del := false
 			instrsOf(fn, func(in ssa.Instruction) {
